@@ -853,7 +853,7 @@ class PyvalColorizer:
         if len(tree) > 1 and not noparen:
             self._output('(', self.RE_GROUP_TAG, state)
 
-        for elt in tree:
+        for idx, elt in enumerate(tree):
             op = elt[0]
             args = elt[1]
 
@@ -970,7 +970,17 @@ class PyvalColorizer:
                 self._output(')', self.RE_GROUP_TAG, state)
 
             elif op == sre_constants.GROUPREF: #type:ignore[attr-defined]
-                self._output('\\%d' % args, self.RE_REF_TAG, state)
+                nxt = tree[idx+1] if idx+1 < len(tree) else None
+                if args in groups:
+                    self._output('(?P=%s)' % groups[args], self.RE_REF_TAG, state)
+                elif (nxt is not None and nxt[0] == sre_constants.LITERAL #type:ignore[attr-defined]
+                      and chr(cast(int, nxt[1])).isdigit()):
+                    # A digit that follows would be read as part of the group number.
+                    self._output('(?:', self.RE_GROUP_TAG, state)
+                    self._output('\\%d' % args, self.RE_REF_TAG, state)
+                    self._output(')', self.RE_GROUP_TAG, state)
+                else:
+                    self._output('\\%d' % args, self.RE_REF_TAG, state)
 
             elif op == sre_constants.RANGE: #type:ignore[attr-defined]
                 self._colorize_re_tree( ((sre_constants.LITERAL, args[0]),), #type:ignore[attr-defined]
